@@ -401,6 +401,42 @@ impl Prop for LocalWins {
                                     _ => return out.fail("alias-not-first", what(format!("zone {} aliases the name with {c0:?}", z.apex))),
                                 }
                             }
+                            // "the reply is marked authoritative": an alias chain that
+                            // stays within authoritative zones and ends there - in
+                            // data, an empty answer or a name error - is answered on
+                            // the zones' word alone
+                            {
+                                let mut cur = match &c0.2 {
+                                    WData::Name(t) => Some(t.lower()),
+                                    _ => None,
+                                };
+                                let mut ends_authoritatively = false;
+                                for _ in 0..8 {
+                                    let Some(t) = cur.take() else { break };
+                                    let Some((ti, tz)) = models.iter().enumerate().filter(|(_, m)| t.is_at_or_below(&m.apex)).max_by_key(|(_, m)| m.apex.depth()) else { break };
+                                    if tz.soa.is_none() {
+                                        break;
+                                    }
+                                    match tz.lookup_in(&effs[ti], &t, q.qtype) {
+                                        ZR::Answer(_) | ZR::NameError => {
+                                            ends_authoritatively = true;
+                                            break;
+                                        }
+                                        ZR::Alias(next) => {
+                                            if let WData::Name(n) = &next.2 {
+                                                cur = Some(n.lower());
+                                            }
+                                        }
+                                        ZR::Referral(_) => break,
+                                    }
+                                }
+                                if ends_authoritatively {
+                                    out.classes.push("alias-chain-within-authoritative-zones".into());
+                                    if let Ok(ResolvedRecord::NonAuthoritative { .. }) = &res {
+                                        return out.fail("alias-chain-not-marked-authoritative", what(format!("the alias chain from {qn} stays within authoritative zones and ends there")));
+                                    }
+                                }
+                            }
                             out.classes.push("alias-in-authoritative-zone".into());
                             out.nontrivial |= collides;
                         }
